@@ -2,7 +2,7 @@
 """seed_save.py <Cxx> <seed-id> <needs> <caught-by json> : copies a confirmed seeded change into /verif/seeded/<seed-id>/"""
 import json, os, shutil, sys
 prop, sid, needs, caught = sys.argv[1], sys.argv[2], sys.argv[3], json.loads(sys.argv[4])
-src = "/tmp/seed/%s" % prop
+src = os.path.join(os.environ.get("SEED_ROOT", "/tmp/seed"), prop)
 dst = "/verif/seeded/%s" % sid
 os.makedirs(dst, exist_ok=True)
 shutil.copy(os.path.join(src, "seed.patch"), os.path.join(dst, "patch.diff"))
